@@ -1,7 +1,7 @@
 """C05, second half (slice C05b): Zip*/ZipAll, CombineLatest*/CombineLatestAll, ConcatAll/Concat/ConcatWith/FlatMap*,
 BufferWhen, WindowWhen, GroupBy* over hot sources, every interleaving. `parts(ctx)` is what the C05 check calls;
 `check(ctx)` makes the slice runnable on its own as `./check C05b quick`."""
-import json, re
+import json, os, re
 import runner as R
 from props import *
 
@@ -29,13 +29,23 @@ def nontrivial_mb(case, gd):
 
 
 def spec_oracle(ctx, rows):
-    """implementation = specification (as computed by the Lean Spec.* functions) outside the known classes"""
+    """implementation = specification (as computed by the Lean Spec.* functions) outside the known classes.
+    The model-only fields (spec=, specsubs=, known=) are asked from the driver in a second pass (`spec=1`)."""
     bad = {}
     stats = {}
-    for c, g, l in rows:
+    cp, lp = os.path.join(ctx.work, 'spec.cases'), os.path.join(ctx.work, 'spec.lean')
+    with open(cp, 'w') as f:
+        for c, g, l in rows:
+            f.write(c + ' spec=1\n')
+    ok, err = R.run_driver(cp, lp)
+    specs = open(lp).read().splitlines() if ok else []
+    if len(specs) != len(rows):
+        ctx.violation('C05b: the driver did not answer the spec pass', 'driver spec pass failed\n' + (err or '')[-2000:], no_input=True)
+        return {}
+    for (c, g, _), l in zip(rows, specs):
         gd, ld = R.parse_res(g), R.parse_res(l)
-        if 'spec' not in ld or flag(gd):
-            continue
+        if 'spec' not in ld or flag(gd) or ' cut=' in c:
+            continue    # the specifications are about runs without an external Unsubscribe
         op = re.search(r'\bop=(\S+)', c).group(1)
         known = set() if ld.get('known', '-') == '-' else set(ld['known'].split(','))
         msg = None
@@ -85,7 +95,7 @@ def parts(ctx):
              'BufferWhen, WindowWhen (recorder on every window), GroupBy/I/WithContext/IWithContext (recorder on every group, subscribed 0/1/2/3/50 notifications after emission) on hot probe sources; '
              'quick: 0-1 sources x scripts <=3, 2 sources x scripts <=2 values x {never, complete, error} x ALL interleavings, 3 sources x scripts <=1 value x ALL interleavings (sampled 1/4 for secondary variants), '
              '300 seeded random cases per variant (2-6 sources, scripts <=4, entries that issue nothing); thorough: 2 sources x <=3 values, 3 sources x <=2 values x ALL interleavings (1/8 for secondary variants), 3000 random per variant; '
-             'compared: delivered trace (windows/groups as what their recorder received), refused notifications (multiset), per-source released flags, per-source subscription counts - all equal; '
+             'one case in five also with an external Unsubscribe at a random point (not ConcatAll, which blocks in Subscribe); compared: delivered trace (windows/groups as what their recorder received), refused notifications (multiset), per-source released flags, per-source subscription counts - all equal; '
              'oracle: implementation trace = Lean Spec.* of the arrivals outside the Known.* classes, Concat subscriptions = Spec.concatSubscribed outside Known.concatInnerError; non-trivial = something delivered or refused',
         assumptions=['logical semantics: each notification processed to quiescence before the next is issued (the true-concurrency clause of C05 - unlock-then-emit windows of Zip/CombineLatest/BufferWhen/WindowWhen - is not covered by this slice)',
                      'sources are hot (notify after Subscribe returned); outer sources of ZipAll/CombineLatestAll/ConcatAll/FlatMap are synchronous and emit the inner sources in order',
